@@ -285,19 +285,29 @@ func (e *Engine) sliceElemCell(s *Slice, i int) *Cell {
 
 func (e *Engine) sliceLoad(s *Slice, i *Term) Value {
 	if s.bobj != nil {
+		e.raceAccessBytes(s.bobj, false, e.curPos())
 		return e.tt.Select(s.bobj.arr, e.tt.Bin(OpAdd, s.off, i))
 	}
 	k := int(e.concretize(i))
-	return e.loadCell(e.sliceElemCell(s, k))
+	c := e.sliceElemCell(s, k)
+	if e.race != nil {
+		e.raceAccessCell(c, false, e.curPos(), false)
+	}
+	return e.loadCell(c)
 }
 
 func (e *Engine) sliceStore(s *Slice, i *Term, v Value) {
 	if s.bobj != nil {
+		e.raceAccessBytes(s.bobj, true, e.curPos())
 		s.bobj.arr = e.tt.Store(s.bobj.arr, e.tt.Bin(OpAdd, s.off, i), v.(*Term))
 		return
 	}
 	k := int(e.concretize(i))
-	e.storeCell(e.sliceElemCell(s, k), v)
+	c := e.sliceElemCell(s, k)
+	if e.race != nil {
+		e.raceAccessCell(c, true, e.curPos(), false)
+	}
+	e.storeCell(c, v)
 }
 
 func (e *Engine) mustConst(t *Term, what string) uint64 {
